@@ -44,6 +44,9 @@ HOURLY_PROFILES = {
     "wavelet-db3": {"temporal_cluster": {"wavelet_name": "db3", "wavelet_n_levels": 3}},
     "enet-random": {"elasticnet": {"selection": "random"}},
     "minsize": {"temporal_cluster": {"min_cluster_size": 3, "n_cluster_upper": 8}},
+    # with baselines that hold a few odd (month, weekday) cells (family flag 'oddcells') the clustering yields clusters below this size:
+    # their cells are merged into the outlier group (label -1)
+    "minsize5": {"temporal_cluster": {"min_cluster_size": 5, "n_cluster_lower": 3, "recluster_count": 1}},
 }
 # the alternatives above that are not in FAMILIES_QUICK: driven by C01 in both tiers (its statement quantifies over every accepted profile)
 HOURLY_ALTERNATIVES = ["nobins", "nointercept", "edge-rate", "cluster-silhouette", "cluster-silmed", "cluster-db", "cluster-manhattan", "cluster-cosine", "cluster-seuclid",
@@ -123,6 +126,7 @@ class Family:
         self.ghi = "ghi" in parts[2:]
         self.irregular = "irregular" in parts[2:]            # seed-sensitive load shapes
         self.occupancy = self.kind == "hourly" and self.profile.startswith("supp")
+        self.oddcells = "oddcells" in parts[2:]              # a few (month, weekday) cells with a load shape of their own (holiday weekends)
 
     # ---- classes ------------------------------------------------------------------------------------
     def classes(self):
@@ -154,8 +158,15 @@ class Family:
         if self.kind == "billing":
             tdf, bdf, _ = billing_reads(rng, tz=tz, start=start or "2018-01-01", n_periods=max(3, days // 30), kind=kind, noise=noise)
             return tdf.join(bdf).iloc[:-1]
-        return synth_hourly(tz=tz, start=start or "2018-01-01", days=days, seed=rng, ghi=self.ghi, noise=noise,
-                            irregular=self.irregular, occupancy=self.occupancy, occupancy_name=OCC_NAME)
+        df = synth_hourly(tz=tz, start=start or "2018-01-01", days=days, seed=rng, ghi=self.ghi, noise=noise,
+                          irregular=self.irregular, occupancy=self.occupancy, occupancy_name=OCC_NAME)
+        if self.oddcells:
+            sel = np.zeros(len(df), bool)
+            for mth, dow in ((12, 5), (12, 6), (1, 6)):
+                sel |= (df.index.month.values == mth) & (df.index.dayofweek.values == dow)
+            h = df.index.hour.values
+            df.loc[sel, "observed"] = (4 + 3 * np.cos(2 * np.pi * h / 24))[sel] * float(df["observed"].mean()) / 2
+        return df
 
     def baseline_data(self, df):
         B = self.classes()[1]
@@ -194,6 +205,6 @@ class Family:
 
 # every alternative fitting path of the hourly family (other scaler, adaptive re-weighting) is in the quick tier too: state that only one of them keeps
 # (fitted scalers, warm-started estimators) is invisible under the default profile
-FAMILIES_QUICK = ["daily:current", "daily:legacy", "billing", "hourly:default", "hourly:default:ghi", "caltrack", "hourly:supp", "hourly:robust", "hourly:adaptive"]
+FAMILIES_QUICK = ["daily:current", "daily:legacy", "billing", "hourly:default", "hourly:default:ghi", "caltrack", "hourly:supp", "hourly:robust", "hourly:adaptive", "hourly:minsize5:oddcells"]
 FAMILIES_ALL = ["daily:" + p for p in DAILY_PROFILES] + ["billing"] + ["hourly:" + p for p in HOURLY_PROFILES] + \
                ["hourly:default:ghi", "hourly:robust:ghi", "hourly:bins8:ghi", "hourly:default:irregular", "hourly:supp:ghi"] + ["caltrack"]
